@@ -35,7 +35,7 @@ def recToJ : Recovered → J
   | .halt "not-lldp" => J.arr [J.str "ignored"]
   | .halt _ => J.arr [J.str "halt"]
 
-def handle (j : J) : Except String J := do
+def handle1 (j : J) : Except String J := do
   let op ← j.string "op"
   if op = "calc" then
     let adj ← (← j.array "adj").mapM linkOfJ
@@ -54,10 +54,18 @@ def handle (j : J) : Except String J := do
       | _ => .error "prev = [dpid,port,bool]"
     let fail ← j.optNat "fail"
     let all ← j.boolean "all"
+    let prevJ := fun (pv : Prev) => J.arr (pv.map fun ((d, p), b) => J.arr [J.ofNat d, J.ofNat p, J.bool b])
     match updateTreeF all adj order conns prev fail with
     | .error e => pure (J.mk [("exc", J.str e)])
-    | .ok (pv, mods) => pure (J.mk [("mods", J.arr (mods.map modToJ)),
-                                    ("prev", J.arr (pv.map fun ((d, p), b) => J.arr [J.ofNat d, J.ofNat p, J.bool b]))])
+    | .ok (pv, mods) =>
+      -- "again": a second, undisturbed `_update_tree()` right after (what follows a failed send)
+      match j.get? "again" with
+      | some (J.bool true) =>
+        match updateTree all adj order conns pv with
+        | .error e => pure (J.mk [("exc", J.str e)])
+        | .ok (pv2, mods2) => pure (J.mk [("mods", J.arr (mods.map modToJ)), ("prev", prevJ pv),
+                                          ("mods2", J.arr (mods2.map modToJ)), ("prev2", prevJ pv2)])
+      | _ => pure (J.mk [("mods", J.arr (mods.map modToJ)), ("prev", prevJ pv)])
   else if op = "history" then
     let vj ← j.get "variant"
     let v : Variant := ⟨← vj.boolean "popFirst", ← vj.boolean "skip", ← vj.boolean "visitAll"⟩
@@ -73,5 +81,13 @@ def handle (j : J) : Except String J := do
     | .error e => pure (J.mk [("exc", J.str e)])
     | .ok r => pure (J.mk [("r", recToJ r)])
   else .error s!"unknown op {op}"
+
+/-- `{"op":"batch","reqs":[…]}`: the answers to a sequence of independent requests (each answered as if it were the only one) -/
+def handle (j : J) : Except String J := do
+  let op ← j.string "op"
+  if op = "batch" then
+    let rs ← (← j.array "reqs").mapM fun r => pure (match handle1 r with | .ok x => x | .error e => J.mk [("error", J.str e)])
+    pure (J.mk [("resps", J.arr rs)])
+  else handle1 j
 
 def main : IO Unit := serve handle
